@@ -59,7 +59,46 @@ pub fn one(ctx: &mut Ctx, tag: &str, b: &[u8], modern: bool) {
     }
 }
 
+/// wide, shallow terms: hundreds of siblings of each kind under one parent (anything that is counted per decoded
+/// sub-term rather than per nesting level shows up here and nowhere else)
+fn wide(ctx: &mut Ctx) {
+    use erltf::types::Atom;
+    use erltf::OwnedTerm as T;
+    let leaves: Vec<(&str, T)> = vec![
+        ("nil", T::Nil),
+        ("empty-list", T::List(vec![])),
+        ("row", T::List(vec![T::Atom(Atom::new("a"))])),
+        ("int", T::Integer(7)),
+        ("atom", T::Atom(Atom::new("ok"))),
+        ("tuple0", T::Tuple(vec![])),
+        ("pair", T::Tuple(vec![T::Nil, T::Nil])),
+        ("bin", T::Binary(vec![1, 2])),
+        ("str", T::List(vec![T::Integer(104), T::Integer(105)])),
+        ("map0", T::Map(Default::default())),
+        ("kw", T::List(vec![T::Tuple(vec![T::Atom(Atom::new("k")), T::List(vec![])])])),
+    ];
+    let counts: &[usize] = if ctx.thorough { &[1, 2, 127, 128, 254, 255, 256, 257, 258, 300, 511, 512, 513, 1000, 5000] } else { &[128, 255, 256, 257, 300, 600] };
+    for (name, leaf) in &leaves {
+        for &n in counts {
+            let items: Vec<T> = (0..n).map(|_| leaf.clone()).collect();
+            let shapes: Vec<T> = vec![
+                T::List(items.clone()),
+                T::Tuple(items.clone()),
+                T::Map((0..n).map(|i| (T::Integer(i as i64), leaf.clone())).collect()),
+                T::Tuple(vec![T::List(items.clone()), T::Atom(Atom::new("after")), T::List(vec![leaf.clone()])]),
+                T::ImproperList { elements: items, tail: Box::new(T::Atom(Atom::new("t"))) },
+            ];
+            for t in shapes {
+                let Ok(b) = erltf::encode(&t) else { continue };
+                ctx.count(&format!("wide_{}", name));
+                one(ctx, "wide", &b, true);
+            }
+        }
+    }
+}
+
 pub fn run(ctx: &mut Ctx) {
+    wide(ctx);
     let n = ctx.n(400, 8000);
     let cfg = Cfg { local_ids: false, huge: false, ..Cfg::default() };
     let mut pool: Vec<Vec<u8>> = vec![];
